@@ -332,7 +332,7 @@ def errclass(e):
 _DT = [0]
 
 
-def make_writer(cfg, chdir, uuid="verif-uuid", path=None):
+def make_writer(cfg, chdir, uuid="verif-12345678-90ab-cdef-1234-567890abcdef-session-A", path=None):
     """path: the str object naming chdir that the caller holds (a later session of the same recorder passes the
     very same object again); default: a fresh spelling of chdir"""
     import digital_rf
